@@ -2,8 +2,11 @@
    PARTIAL: the line-ending theorem is global; the comment / blank theorems are local laws of one
    lexer step (no token, same line, the line break survives).  That the token stream of a whole program
    is unchanged by these insertions is checked by the correspondence (token dump vs Lexer.v) and by the
-   layout oracle on the implementation, not proved. *)
-From PE2 Require Import Lexer Lemmas_Lexer.
+   layout oracle on the implementation, not proved.
+   Global too: n line breaks in front of ANY text give the same tokens with n LINE_END tokens in front and every line number
+   n larger (same kinds, texts and columns), and a lexical error is the same error n lines further down
+   (C10_blank_lines_above_shift_positions; relational proof over every sub-lexer of Lexer.v). *)
+From PE2 Require Import Lexer Lemmas_Lexer Lemmas_LexShift.
 Local Open Scope Z_scope.
 
 Theorem C10_crlf : forall ped s, lex ped (to_crlf s) = lex ped s.
@@ -36,3 +39,18 @@ Theorem C10_paren_after_blank_or_tab_accepted : forall ped r st0 l k toks c,
   exists s', lex_step ped (mkLst ("("%char :: r) st0 l k (Some c)) toks = LOk s' (mkTok TLPAREN l k [] :: toks).
 Proof. exact paren_after_blank_accepted. Qed.
 Print Assumptions C10_paren_after_blank_or_tab_accepted.
+
+(* line numbers move by exactly the number of lines inserted above, and nothing else changes: for every text and every n *)
+Theorem C10_blank_lines_above_shift_positions : forall ped n text,
+  match lex ped text with
+  | inl toks => lex ped (repeat ch_nl n ++ text) = inl (rev (line_ends n 1) ++ map (shift_tok (Z.of_nat n)) toks)
+  | inr e => lex ped (repeat ch_nl n ++ text) = inr (shift_err (Z.of_nat n) e)
+  end.
+Proof. exact blank_lines_above. Qed.
+Print Assumptions C10_blank_lines_above_shift_positions.
+
+Example C10_shift_example :
+  lex false (str_of_string "
+
+OUTPUT 1") = inl [mkTok TLINE_END 1 1 []; mkTok TLINE_END 2 1 []; mkTok TOUTPUT 3 1 []; mkTok TINTEGER 3 8 (str_of_string "1"); mkTok TEXPRESSION_END 3 8 []].
+Proof. vm_compute. reflexivity. Qed.
